@@ -222,6 +222,14 @@ def classify_pos_write(f, store, stmt):
 
 def _checked_after(f, stmt):
     """A later `if self._pos > len(self): self._pos = <saved>; raise` covers this write."""
+    # the write must be able to reach the check: not inside a block that returns first
+    for blk in own_walk(f.node):
+        for fld in ('body', 'orelse'):
+            b = getattr(blk, fld, None)
+            if isinstance(b, list) and any(stmt is y for y in b):
+                after = b[b.index(stmt) + 1:]
+                if blk is not f.node and any(isinstance(y, ast.Return) for y in after):
+                    return False
     for s in own_walk(f.node):
         if isinstance(s, ast.If) and s.lineno > stmt.lineno and isinstance(s.test, ast.Compare) and '_pos' in ast.unparse(s.test.left) \
                 and isinstance(s.test.ops[0], ast.Gt) and 'len(self)' in ast.unparse(s.test.comparators[0]):
